@@ -15,6 +15,7 @@ import (
 	"path"
 	"reflect"
 	"runtime"
+	"sort"
 	"strconv"
 	"strings"
 	"sync"
@@ -51,6 +52,9 @@ type Batch struct {
 	// more ordinary events: the server stores Evs, refuses the request (Write returns an error) and stores nothing
 	// of what follows. Evs is what the source partition holds afterwards.
 	Refused int `json:"refused,omitempty"`
+	// Fat > 0: Evs[Fat-1] is an event whose record is exactly MaxRecordSize bytes: the source stores it, its copy with the
+	// provenance fields exceeds the limit and the destination refuses it every time
+	Fat int `json:"fat,omitempty"`
 }
 
 type PipeDef struct {
@@ -69,8 +73,9 @@ type PipeDef struct {
 }
 
 type Step struct {
-	Kind    string  `json:"kind"` // wave | create | delete | restart | race | rearm
+	Kind    string  `json:"kind"` // wave | create | delete | delete-held | restart | race | stale | rearm | admin | truncate
 	Pipe    int     `json:"pipe,omitempty"`
+	Src     int     `json:"src,omitempty"` // truncate: the source partition
 	Batches []Batch `json:"batches,omitempty"`
 	// wave: writers of different sources run concurrently; Par: also the batches of one source
 	Par bool `json:"par,omitempty"`
@@ -81,9 +86,12 @@ type Step struct {
 }
 
 type Scenario struct {
-	Chunk   int64         `json:"chunk"`
-	MaxRec  int64         `json:"maxrec,omitempty"` // MaxRecordSize of the scenario's server (0: default)
-	Sources [][][2]string `json:"sources"`          // tag pairs sorted by key
+	Chunk  int64 `json:"chunk"`
+	MaxRec int64 `json:"maxrec,omitempty"` // MaxRecordSize of the scenario's server (0: default)
+	// Cleaner: a second pipesCleaner goroutine with a period of milliseconds runs beside everything (the service's own
+	// starts after one minute)
+	Cleaner bool          `json:"cleaner,omitempty"`
+	Sources [][][2]string `json:"sources"` // tag pairs sorted by key
 	Pipes   []PipeDef     `json:"pipes"`
 	Steps   []Step        `json:"steps"`
 	Stream  string        `json:"stream"`
@@ -135,12 +143,25 @@ type saveGate struct {
 
 var saveGates = map[string]*saveGate{}
 
+// how often a worker of (pipe, source) came to save its position
+var saveHits = map[string]int{}
+
+func saveHitCount(pname, src string) int {
+	gatesMu.Lock()
+	defer gatesMu.Unlock()
+	return saveHits[pname+"\x00"+src]
+}
+
+// TRUNCATE steps that removed the partition / only its chunks
+var truncDeleted, truncKept int32
+
 func pipeHook(point, pname, src string) {
 	if point != "pipe-save-state" {
 		return
 	}
 	k := pname + "\x00" + src
 	gatesMu.Lock()
+	saveHits[k]++
 	g := saveGates[k]
 	if g != nil {
 		delete(saveGates, k)
@@ -374,7 +395,13 @@ type pipeRun struct {
 	// epochs of one name: prev = the deleted pipe this one re-creates; base = per source, how many events of it the
 	// destination held when this pipe was created; a pipe that was re-created is superseded: its observation is
 	// frozen (what the destination held, per source, right before the re-creation)
-	heldDel    bool // deleted while one of its workers stood between its journal write and saveState
+	heldDel bool // deleted while one of its workers stood between its journal write and saveState
+	// per source: index in the source's history of the record whose copy the destination refuses (-1: none), the length
+	// of the history when the request with that record was written, and the restarts + writes since
+	blocked    []int
+	blockBase  []int
+	reblocked  []int
+	pendingRe  []bool
 	prev       *pipeRun
 	base       []int
 	superseded bool
@@ -390,7 +417,9 @@ type runner struct {
 	pipes      []*pipeRun
 	viol       *Violation
 	lastSettle time.Time
-	flushed    []int // per source: readable events
+	flushed    []int  // per source: readable events
+	trunc      []int  // per source: events removed from the front by TRUNCATE
+	emptied    []bool // per source: truncated to nothing and not written since
 	barName    string
 	barSrc     string
 	barTs      int64
@@ -483,11 +512,32 @@ func (r *runner) barrier() error {
 
 var errVerdict = fmt.Errorf("scenario ended by a verdict")
 
-// expectedStarts: how many workers the notifications of a write to source s will start
+func minusOnes(n int) []int {
+	res := make([]int, n)
+	for i := range res {
+		res[i] = -1
+	}
+	return res
+}
+
+func (r *runner) sid(s int) string { return r.sc.Sources[s][len(r.sc.Sources[s])-1][1] }
+
+// liveOn: the live pipes that copy from source s and are not stuck at a record of it (a stuck worker never parks)
+func (r *runner) liveOn(s int) int {
+	n := 0
+	for _, p := range r.livePipes() {
+		if p.def.Match[s] && p.blocked[s] < 0 {
+			n++
+		}
+	}
+	return n
+}
+
+// expectedStarts: how many workers the notifications of a write to source s will start (and that will park)
 func (r *runner) expectedStarts(s int) int {
 	n := 0
 	for _, p := range r.livePipes() {
-		if !p.def.Match[s] {
+		if !p.def.Match[s] || p.blocked[s] >= 0 {
 			continue
 		}
 		_, _, chg, ok := r.srv.Pipes.VC10PipeState(p.def.Name, r.srcIds[s])
@@ -516,7 +566,7 @@ func (r *runner) waitCaughtUp(counts []int) bool {
 	return WaitFor(deadline, func() bool {
 		for _, p := range r.livePipes() {
 			for i, id := range r.srcIds {
-				if id == "" || !p.def.Match[i] || counts[i] <= p.pre[i] {
+				if id == "" || !p.def.Match[i] || counts[i] <= p.pre[i] || p.blocked[i] >= 0 || r.emptied[i] {
 					continue
 				}
 				end, _ := endPos(r.srv, id)
@@ -558,8 +608,8 @@ func (r *runner) settle(newBySrc map[int][]Ev, parkTarget map[int]int, what stri
 		want[s] += len(evs)
 	}
 	for s := range newBySrc {
-		if _, n := endPos(r.srv, r.srcIds[s]); int(n) != want[s] {
-			return fmt.Errorf("%s: source %d has %d readable events after Sync, %d written", what, s, n, want[s])
+		if _, n := endPos(r.srv, r.srcIds[s]); int(n) != want[s]-r.trunc[s] {
+			return fmt.Errorf("%s: source %d has %d readable events after Sync, %d written, %d truncated", what, s, n, want[s], r.trunc[s])
 		}
 	}
 	cnt := r.counts()
@@ -587,15 +637,15 @@ func (r *runner) settle(newBySrc map[int][]Ev, parkTarget map[int]int, what stri
 		if err != nil {
 			return err
 		}
-		if len(got) != want[s] {
-			return fmt.Errorf("%s: source %d holds %d events, %d written", what, s, len(got), want[s])
+		if len(got) != want[s]-r.trunc[s] {
+			return fmt.Errorf("%s: source %d holds %d events, %d written, %d truncated", what, s, len(got), want[s], r.trunc[s])
 		}
 		byKey := map[string]Ev{}
 		for _, e := range evs {
 			byKey[fmt.Sprintf("%d|%s", e.Ts, e.Msg)] = e
 		}
 		var ordered []Ev
-		for _, g := range got[len(r.written[s]):] {
+		for _, g := range got[len(r.written[s])-r.trunc[s]:] {
 			e, ok := byKey[fmt.Sprintf("%d|%s", g.Ts, g.Msg)]
 			if !ok {
 				return fmt.Errorf("%s: source %d returned an event that was not written: %v", what, s, g)
@@ -604,6 +654,7 @@ func (r *runner) settle(newBySrc map[int][]Ev, parkTarget map[int]int, what stri
 		}
 		r.written[s] = append(r.written[s], ordered...)
 		r.flushed[s] = len(r.written[s])
+		r.emptied[s] = false
 		newBySrc[s] = ordered
 	}
 	return nil
@@ -629,6 +680,9 @@ func (r *runner) start() error {
 		// (default 30 s: ~10000 descriptors in a thorough run). The idle timer only runs while nothing is unflushed,
 		// so it never makes data readable behind the harness's back. Read when a journal is created.
 		r.srv.Cfg.JrnlCtrlConfig.WriteIdleSec = 2
+		if r.sc.Cleaner {
+			r.srv.Pipes.VC10RunPipesCleaner(0, 3*time.Millisecond)
+		}
 	}
 	return err
 }
@@ -657,9 +711,11 @@ func (r *runner) run() error {
 	r.srcIds = make([]string, len(sc.Sources))
 	r.written = make([][]Ev, len(sc.Sources))
 	r.flushed = make([]int, len(sc.Sources))
+	r.trunc = make([]int, len(sc.Sources))
+	r.emptied = make([]bool, len(sc.Sources))
 	for _, pd := range sc.Pipes {
 		r.pipes = append(r.pipes, &pipeRun{def: pd, pre: make([]int, len(sc.Sources)), preFl: make([]int, len(sc.Sources)), ops: make([][]string, len(sc.Sources)),
-			base: make([]int, len(sc.Sources)), seen: make([]bool, len(sc.Sources)), raceLost: make([][]Ev, len(sc.Sources)), stale: make([][]Ev, len(sc.Sources))})
+			base: make([]int, len(sc.Sources)), blocked: minusOnes(len(sc.Sources)), blockBase: make([]int, len(sc.Sources)), reblocked: make([]int, len(sc.Sources)), pendingRe: make([]bool, len(sc.Sources)), seen: make([]bool, len(sc.Sources)), raceLost: make([][]Ev, len(sc.Sources)), stale: make([][]Ev, len(sc.Sources))})
 	}
 	for si, st := range sc.Steps {
 		what := fmt.Sprintf("step %d (%s)", si, st.Kind)
@@ -804,6 +860,120 @@ func (r *runner) run() error {
 					p.ops[s2] = append(p.ops[s2], "SDelete")
 				}
 			}
+		case "admin":
+			// the registry operations around a pipe must leave the copying alone: a second CREATE PIPE of a live name, a
+			// definition whose conditions do not compile, DELETE PIPE of an unknown name are refused; DESCRIBE PIPE and
+			// the list of pipes show what exists
+			p := r.pipes[st.Pipe]
+			if !p.created {
+				return fmt.Errorf("%s: pipe not created", what)
+			}
+			live := !p.deleted
+			if p.deleted {
+				for _, q := range r.livePipes() {
+					if q.def.Name == p.def.Name {
+						live = true
+					}
+				}
+			}
+			if live {
+				if _, err := r.srv.Exec("CREATE PIPE " + p.def.Name); err == nil {
+					r.fail("pipe-admin-duplicate-create-accepted", fmt.Sprintf("%s: CREATE PIPE %s was accepted although a pipe of that name exists", what, p.def.Name))
+				}
+				if _, err := r.srv.Pipes.CreatePipe(pipe.Pipe{Name: p.def.Name, TagsCond: "sid=nosuch"}); err == nil {
+					r.fail("pipe-admin-duplicate-create-accepted", fmt.Sprintf("%s: CreatePipe(%s) with another condition was accepted although a pipe of that name exists", what, p.def.Name))
+				}
+				if out, err := r.srv.Exec("DESCRIBE PIPE " + p.def.Name); err != nil || !strings.Contains(out, p.def.Name) {
+					r.fail("pipe-admin-describe", fmt.Sprintf("%s: DESCRIBE PIPE %s of a live pipe: %q, %v", what, p.def.Name, out, err))
+				}
+			} else {
+				if out, err := r.srv.Exec("DESCRIBE PIPE " + p.def.Name); err == nil {
+					r.fail("pipe-admin-describe", fmt.Sprintf("%s: DESCRIBE PIPE %s of a deleted pipe answered %q", what, p.def.Name, out))
+				}
+				if _, err := r.srv.Exec("DELETE PIPE " + p.def.Name); err == nil {
+					r.fail("pipe-admin-delete-unknown-accepted", fmt.Sprintf("%s: DELETE PIPE %s of a deleted pipe was accepted", what, p.def.Name))
+				}
+			}
+			bad := pipeName()
+			if _, err := r.srv.Pipes.CreatePipe(pipe.Pipe{Name: bad, TagsCond: "a=b AND"}); err == nil {
+				r.fail("pipe-admin-bad-condition-accepted", what+": a pipe whose source condition does not compile was created")
+			}
+			if _, err := r.srv.Pipes.CreatePipe(pipe.Pipe{Name: bad, FltCond: "msg contains"}); err == nil {
+				r.fail("pipe-admin-bad-condition-accepted", what+": a pipe whose filter condition does not compile was created")
+			}
+			if _, err := r.srv.Pipes.GetPipe(bad); err == nil {
+				r.fail("pipe-admin-bad-condition-accepted", what+": a refused pipe definition is registered")
+			}
+			if _, err := r.srv.Exec("DELETE PIPE " + bad); err == nil {
+				r.fail("pipe-admin-delete-unknown-accepted", what+": DELETE PIPE of a name that was never created was accepted")
+			}
+			wantNames := map[string]bool{}
+			for _, q := range r.livePipes() {
+				wantNames[q.def.Name] = true
+			}
+			if r.barName != "" {
+				wantNames[r.barName] = true
+			}
+			var gotNames []string
+			okList := true
+			for _, q := range r.srv.Pipes.GetPipes() {
+				gotNames = append(gotNames, q.Name)
+				if !wantNames[q.Name] {
+					okList = false
+				}
+			}
+			if !okList || len(gotNames) != len(wantNames) || !sort.StringsAreSorted(gotNames) {
+				r.fail("pipe-admin-show", fmt.Sprintf("%s: the list of pipes is %v, live are %d: %v", what, gotNames, len(wantNames), wantNames))
+			}
+		case "truncate":
+			// TRUNCATE removes every chunk of a source partition at a quiescent point (all of it is copied); the partition
+			// itself goes too when nothing holds it (no cursor, no parked worker: right after a restart)
+			s := st.Src
+			id := r.srcIds[s]
+			if id == "" || r.flushed[s] != len(r.written[s]) {
+				return fmt.Errorf("%s: needs a flushed source", what)
+			}
+			if _, err := r.srv.Exec("TRUNCATE sid=" + r.sid(s) + " MAXSIZE 1"); err != nil {
+				return fmt.Errorf("%s: %v", what, err)
+			}
+			_, e := r.srv.TIndex.GetJournalTags(id, false)
+			deleted := e != nil
+			if !deleted {
+				if _, n := endPos(r.srv, id); n != 0 {
+					return fmt.Errorf("%s: source %d still has %d events after TRUNCATE MAXSIZE 1", what, s, n)
+				}
+			}
+			r.trunc[s] = len(r.written[s])
+			r.emptied[s] = true
+			if deleted {
+				for _, p := range r.pipes {
+					if !p.created || p.superseded || !p.def.Match[s] {
+						continue
+					}
+					p.ops[s] = append(p.ops[s], "SDropSource")
+					p.nontriv = true
+					p.seen[s] = false
+				}
+				if sc.Cleaner {
+					for _, p := range r.livePipes() {
+						if !p.def.Match[s] {
+							continue
+						}
+						if !WaitFor(deadline, func() bool {
+							_, _, _, ok := r.srv.Pipes.VC10PipeState(p.def.Name, id)
+							return !ok
+						}) {
+							r.fail("pipe-descriptor-not-cleaned", fmt.Sprintf("%s: pipe %s still keeps a descriptor for the deleted partition %s (source %d) %v after its deletion, with the pipes cleaner running", what, p.def.Name, id, s, deadline))
+						}
+					}
+				}
+				r.srcIds[s] = ""
+			}
+			if deleted {
+				atomic.AddInt32(&truncDeleted, 1)
+			} else {
+				atomic.AddInt32(&truncKept, 1)
+			}
 		case "restart":
 			r.syncDst()
 			for s := range r.srcIds {
@@ -822,6 +992,9 @@ func (r *runner) run() error {
 				for s := range sc.Sources {
 					if p.def.Match[s] {
 						p.ops[s] = append(p.ops[s], "SRestart")
+						if p.blocked[s] >= 0 {
+							p.pendingRe[s] = true
+						}
 					}
 				}
 			}
@@ -856,13 +1029,22 @@ func (r *runner) run() error {
 				}
 				break
 			}
+			for _, b := range st.Batches {
+				if b.Fat > 0 && (st.FlushFirst || st.Par || sc.MaxRec <= 0 || b.Fat > len(b.Evs)) {
+					return fmt.Errorf("%s: a record the destination refuses needs a sequential, notify-first wave on a server with maxrec", what)
+				}
+			}
 			// FlushFirst: the writers are held in front of their WriteEvent, the data is made readable, then they
 			// go on (workers find the data at once). Otherwise the notifications go out first and the data is
 			// made readable when every worker they started is parked in its wait.
 			h0 := map[int]int{}
 			starts := map[int]int{}
 			gs := map[int]*gate{}
+			saveHitsAtStart := map[string]int{}
 			for _, s := range order {
+				for _, p := range r.livePipes() {
+					saveHitsAtStart[p.def.Name+"\x00"+r.srcIds[s]] = saveHitCount(p.def.Name, r.srcIds[s])
+				}
 				h0[s] = hitCount(r.srcIds[s])
 				starts[s] = r.expectedStarts(s)
 				if st.FlushFirst {
@@ -977,14 +1159,43 @@ func (r *runner) run() error {
 					r.syncSrc(s)
 				}
 			}
-			targets := map[int]int{}
+			// a record whose copy the destination refuses: the workers that reach it stay there
+			var newlyBlocked []*pipeRun
+			fatSrc := -1
 			for _, s := range order {
-				live := 0
+				off := 0
+				for _, b := range bySrc[s] {
+					if b.Fat > 0 {
+						fatSrc = s
+						for _, p := range r.livePipes() {
+							if p.def.Match[s] && p.blocked[s] < 0 && (p.def.FKind == "" || b.Evs[b.Fat-1].Keep) {
+								p.blocked[s] = len(r.written[s]) + off + b.Fat - 1
+								p.blockBase[s] = len(r.written[s])
+								newlyBlocked = append(newlyBlocked, p)
+							}
+						}
+					}
+					off += len(b.Evs)
+				}
+			}
+			type reb struct {
+				p    *pipeRun
+				s, h int
+			}
+			var reblocks []reb
+			for _, s := range order {
 				for _, p := range r.livePipes() {
-					if p.def.Match[s] {
-						live++
+					// a pipe that was stuck before a restart meets the record again with the first write after it
+					if p.def.Match[s] && p.blocked[s] >= 0 && p.pendingRe[s] {
+						p.pendingRe[s] = false
+						p.reblocked[s]++
+						reblocks = append(reblocks, reb{p, s, saveHitsAtStart[p.def.Name+"\x00"+r.srcIds[s]]})
 					}
 				}
+			}
+			targets := map[int]int{}
+			for _, s := range order {
+				live := r.liveOn(s)
 				targets[s] = h0[s] + live
 				if !st.FlushFirst {
 					targets[s] += starts[s]
@@ -992,6 +1203,40 @@ func (r *runner) run() error {
 			}
 			if err := r.settle(newBySrc, targets, what); err != nil {
 				return err
+			}
+			for _, rb := range reblocks {
+				// the worker the notification started has reached the record again: it came to save its position there
+				// (worker.run saves after a failed write), or it copied the events in front of the record once more
+				p, s := rb.p, rb.s
+				again := 0
+				for _, e := range r.written[s][p.blockBase[s]:p.blocked[s]] {
+					if p.def.FKind == "" || e.Keep {
+						again++
+					}
+				}
+				want := p.base[s] + len(r.wantBlocked(p, s)) + p.reblocked[s]*again
+				WaitFor(deadline, func() bool {
+					if again == 0 || saveHitCount(p.def.Name, r.srcIds[s]) > rb.h {
+						return true
+					}
+					r.syncDst()
+					d, err := readDst(r.srv, p.def.Name)
+					if err != nil {
+						return false
+					}
+					n := 0
+					for _, e := range d {
+						if hasSuffix(e.Flds, sc.Sources[s]) {
+							n++
+						}
+					}
+					return n >= want
+				})
+			}
+			for _, p := range newlyBlocked {
+				if !r.waitBlockedPrefix(p, fatSrc) {
+					r.fail("pipe-not-caught-up", fmt.Sprintf("%s: pipe %s did not copy the events of source %d in front of the record the destination refuses within %v", what, p.def.Name, fatSrc, deadline))
+				}
 			}
 			for _, p := range r.pipes {
 				if !p.created || p.superseded {
@@ -1359,6 +1604,36 @@ func copiedEarlier(got, want []DEv, tg [][2]string, earlier []Ev) bool {
 	return true
 }
 
+// wantBlocked: what the destination holds of source s for a pipe that is stuck at the record p.blocked[s]
+func (r *runner) wantBlocked(p *pipeRun, s int) []DEv {
+	var res []DEv
+	for _, e := range r.written[s][p.pre[s]:p.blocked[s]] {
+		if p.def.FKind == "" || e.Keep {
+			res = append(res, transform(r.sc.Sources[s], e))
+		}
+	}
+	return res
+}
+
+// waitBlockedPrefix polls the destination until it holds the events of source s in front of the refused record
+func (r *runner) waitBlockedPrefix(p *pipeRun, s int) bool {
+	want := p.base[s] + len(r.wantBlocked(p, s))
+	return WaitFor(deadline, func() bool {
+		r.syncDst()
+		d, err := readDst(r.srv, p.def.Name)
+		if err != nil {
+			return false
+		}
+		n := 0
+		for _, e := range d {
+			if hasSuffix(e.Flds, r.sc.Sources[s]) {
+				n++
+			}
+		}
+		return n >= want
+	})
+}
+
 // notificatorAtLock: is the notificatior goroutine of the pipe service at address svc inside onWriteEvent (where the
 // only thing it can wait for is the pipe's lock)? Read off the goroutine dump.
 func notificatorAtLock(svc string) bool {
@@ -1518,7 +1793,25 @@ func (r *runner) finish() ([]Case, error) {
 					for _, e := range r.written[s][p.preFl[s]:p.pre[s]] {
 						hist = append(hist, transform(tg, e))
 					}
-					if p.def.FKind != "" && sameDEvs(got, wantNoF) {
+					if p.blocked[s] >= 0 {
+						// the destination refuses the copy of record p.blocked[s]: what is in front of it, once
+						wb := r.wantBlocked(p, s)
+						var again []DEv
+						for _, e := range r.written[s][p.blockBase[s]:p.blocked[s]] {
+							if p.def.FKind == "" || e.Keep {
+								again = append(again, transform(tg, e))
+							}
+						}
+						dup := append([]DEv{}, wb...)
+						for i := 0; i < p.reblocked[s]; i++ {
+							dup = append(dup, again...)
+						}
+						if sameDEvs(got, wb) {
+							cls = "pipe-blocked-by-oversized-copy"
+						} else if p.reblocked[s] > 0 && len(again) > 0 && sameDEvs(got, dup) {
+							cls = "pipe-duplicated-after-failed-write-restart"
+						}
+					} else if p.def.FKind != "" && sameDEvs(got, wantNoF) {
 						cls = "pipe-filter-not-applied"
 					} else if p.prev != nil && copiedEarlier(got, want, tg, r.written[s][:p.pre[s]]) {
 						cls = "pipe-recreated-copied-earlier-events"
@@ -1562,6 +1855,9 @@ func (r *runner) finish() ([]Case, error) {
 			coq := GApp("KSrc", gPairs(tg), GNat(p.preFl[s]), gEvents(p, r.written[s][p.preFl[s]:p.pre[s]]), GList(ops), GList(obs))
 			if q := p.prev; q != nil && p.def.Match[s] && q.def.Match[s] && q.stale[s] == nil && p.preFl[s] == p.pre[s] {
 				coq = GApp("KRe", gPairs(tg), GNat(q.preFl[s]), gEvents(q, r.written[s][q.preFl[s]:q.pre[s]]), GList(q.ops[s]), GNat(p.pre[s]), GList(ops), GList(obs))
+			}
+			if p.blocked[s] >= 0 && p.def.Match[s] && p.prev == nil && p.stale[s] == nil {
+				coq = GApp("KFat", gPairs(tg), GNat(p.preFl[s]), gEvents(p, r.written[s][p.preFl[s]:p.pre[s]]), GList(ops), GNat(p.blocked[s]), GList(obs))
 			}
 			if p.stale[s] != nil && p.def.Match[s] {
 				coq = GApp("KStale", gPairs(tg), GNat(p.pre[s]-len(p.stale[s])), gEvents(p, p.stale[s]), GList(ops), GList(obs))
@@ -1816,7 +2112,14 @@ func genScenario(r *Rng, stream string) *Scenario {
 		}
 		restartAt = r.Range(1, nw-1)
 	}
+	adminAt := -1
+	if r.Chance(1, 3) {
+		adminAt = r.Intn(nw)
+	}
 	for w := 0; w < nw; w++ {
+		if w == adminAt {
+			sc.Steps = append(sc.Steps, Step{Kind: "admin", Pipe: 0})
+		}
 		if w == second {
 			sc.Steps = append(sc.Steps, Step{Kind: "create", Pipe: 1})
 		}
@@ -1914,6 +2217,9 @@ func genRecreate(r *Rng) *Scenario {
 	cycles := r.PickInt(1, 1, 2)
 	for c := 0; c < cycles; c++ {
 		sc.Steps = append(sc.Steps, Step{Kind: "delete", Pipe: cur})
+		if r.Chance(1, 3) {
+			sc.Steps = append(sc.Steps, Step{Kind: "admin", Pipe: cur})
+		}
 		restartAt := -1
 		nb := r.PickInt(0, 1, 1, 2)
 		if r.Chance(1, 4) {
@@ -1977,6 +2283,118 @@ func genHeld(r *Rng) *Scenario {
 	sc.Steps = append(sc.Steps, Step{Kind: "create", Pipe: len(sc.Pipes) - 1})
 	for w := 0; w < r.Range(1, 2); w++ {
 		sc.Steps = append(sc.Steps, genWave(g, r, ns, true, true, nil))
+	}
+	return sc
+}
+
+// fatEvent: an event whose record is exactly maxRec bytes (the source partition takes it; with the source's tags appended
+// as fields it is bigger, and the pipe's partition refuses it)
+func fatEvent(g *gen, maxRec int64) Ev {
+	g.ts += 1
+	n := int(maxRec)
+	for n > 0 && int64((&model.LogEvent{Timestamp: g.ts, Msg: []byte(strings.Repeat("F", n))}).WritableSize()) > maxRec {
+		n--
+	}
+	return Ev{Ts: g.ts, Msg: strings.Repeat("F", n), Keep: false}
+}
+
+// a record whose copy the destination refuses every time: the pipes that reach it stay there (recorded finding), the
+// events in front of it are copied once -- also across a clean restart taken while the worker sleeps between attempts
+func genFat(r *Rng) *Scenario {
+	g := &gen{r: r, ts: int64(r.Range(0, 1000))}
+	sc := &Scenario{Stream: "refused-copy", Chunk: 1 << 20, MaxRec: int64(r.PickInt(300, 400))}
+	ns := r.Range(1, 2)
+	sc.Sources = mkSources(r, ns)
+	all := make([]bool, ns)
+	for i := range all {
+		all[i] = true
+	}
+	p0 := PipeDef{Name: pipeName(), From: r.PickStr("", `sid like "s*"`), Match: all}
+	if r.Chance(1, 4) {
+		// the filter rejects the record: it is never handed to the destination and blocks nothing
+		p0.FKind, p0.Where = "K", `msg contains "K"`
+	}
+	sc.Pipes = []PipeDef{p0}
+	if r.Chance(1, 2) {
+		sc.Steps = append(sc.Steps, genWave(g, r, ns, true, true, nil))
+	}
+	sc.Steps = append(sc.Steps, Step{Kind: "create", Pipe: 0})
+	if r.Chance(1, 2) {
+		sc.Pipes = append(sc.Pipes, PipeDef{Name: pipeName(), Match: all})
+		sc.Steps = append(sc.Steps, Step{Kind: "create", Pipe: 1})
+	}
+	if r.Chance(2, 3) {
+		sc.Steps = append(sc.Steps, genWave(g, r, ns, true, true, nil))
+	}
+	fb := g.batch(0, r.Range(0, 3))
+	fb.Evs = append(fb.Evs, fatEvent(g, sc.MaxRec))
+	fb.Fat = len(fb.Evs)
+	fb.Evs = append(fb.Evs, g.batch(0, r.Range(0, 3)).Evs...)
+	fw := Step{Kind: "wave"}
+	if r.Chance(1, 2) {
+		fw.Batches = append(fw.Batches, g.batch(0, r.Range(1, 3)))
+	}
+	fw.Batches = append(fw.Batches, fb)
+	if ns > 1 && r.Chance(1, 2) {
+		fw.Batches = append(fw.Batches, g.batch(1, r.Range(1, 3)))
+	}
+	sc.Steps = append(sc.Steps, fw)
+	for w := 0; w < r.Range(0, 2); w++ {
+		sc.Steps = append(sc.Steps, genWave(g, r, ns, true, true, nil))
+	}
+	for c := 0; c < r.PickInt(0, 1, 1, 2); c++ {
+		sc.Steps = append(sc.Steps, Step{Kind: "restart"})
+		for w := 0; w < r.Range(1, 2); w++ {
+			sc.Steps = append(sc.Steps, genWave(g, r, ns, true, true, nil))
+		}
+	}
+	return sc
+}
+
+// TRUNCATE of a fully copied source partition under live pipes: with a parked worker (or a cached cursor) holding the
+// partition only its chunks go; right after a restart the partition goes too, the pipes cleaner drops the descriptor,
+// and what is written to those tags afterwards is a new partition. A second pipesCleaner with a period of milliseconds
+// runs in most of these scenarios.
+func genTruncate(r *Rng) *Scenario {
+	g := &gen{r: r, ts: int64(r.Range(0, 1000))}
+	sc := &Scenario{Stream: "truncate", Chunk: 1 << 20, Cleaner: r.Chance(3, 4)}
+	if r.Chance(1, 2) {
+		sc.Chunk = int64(r.PickInt(300, 500, 900))
+	}
+	small := sc.Chunk < 100000
+	ns := r.Range(2, 3)
+	sc.Sources = mkSources(r, ns)
+	fkind := ""
+	if r.Chance(1, 4) {
+		fkind = "K"
+	}
+	sc.Pipes = []PipeDef{mkPipe(r, sc.Sources, fkind)}
+	if r.Chance(1, 2) {
+		sc.Steps = append(sc.Steps, genWave(g, r, ns, !small, true, nil))
+	}
+	sc.Steps = append(sc.Steps, Step{Kind: "create", Pipe: 0})
+	if r.Chance(1, 2) {
+		all := make([]bool, ns)
+		for i := range all {
+			all[i] = true
+		}
+		sc.Pipes = append(sc.Pipes, PipeDef{Name: pipeName(), Match: all})
+		sc.Steps = append(sc.Steps, Step{Kind: "create", Pipe: 1})
+	}
+	for w := 0; w < r.Range(1, 2); w++ {
+		sc.Steps = append(sc.Steps, genWave(g, r, ns, !small, true, nil))
+	}
+	for c := 0; c < r.Range(1, 3); c++ {
+		if r.Chance(1, 2) {
+			sc.Steps = append(sc.Steps, Step{Kind: "restart"})
+		}
+		sc.Steps = append(sc.Steps, Step{Kind: "truncate", Src: 0})
+		if r.Chance(1, 3) {
+			sc.Steps = append(sc.Steps, Step{Kind: "admin", Pipe: 0})
+		}
+		for w := 0; w < r.Range(1, 2); w++ {
+			sc.Steps = append(sc.Steps, genWave(g, r, ns, !small, true, nil))
+		}
 	}
 	return sc
 }
@@ -2175,10 +2593,20 @@ func corpus() []*Scenario {
 			{Kind: "wave", Batches: []Batch{{Src: 0, Evs: []Ev{{Ts: 4, Msg: "between", Keep: false}}}}},
 			{Kind: "create", Pipe: 1},
 			{Kind: "wave", Batches: []Batch{{Src: 0, Evs: []Ev{{Ts: 5, Msg: "after", Keep: false}}}}}}}
-	return []*Scenario{flt, race, held}
+	// the witness of C10_restart_while_retrying_refuted: a, b are stored in the destination, the write fails at the record
+	// whose copy is too big (for ever: the recorded finding pipe-blocked-by-oversized-copy), clean restart while the
+	// worker sleeps, the next write starts a worker: a, b must not be copied again
+	fe := fatEvent(&gen{ts: 2}, 300)
+	refused := &Scenario{Stream: "corpus-refused-copy", Chunk: 1 << 20, MaxRec: 300, Sources: src,
+		Pipes: []PipeDef{{Name: pipeName(), Match: []bool{true}}},
+		Steps: []Step{{Kind: "create"},
+			{Kind: "wave", Batches: []Batch{{Src: 0, Fat: 3, Evs: []Ev{{Ts: 1, Msg: "a", Keep: false}, {Ts: 2, Msg: "b", Keep: false}, fe, {Ts: 4, Msg: "d", Keep: false}}}}},
+			{Kind: "restart"},
+			{Kind: "wave", Batches: []Batch{{Src: 0, Evs: []Ev{{Ts: 5, Msg: "e", Keep: false}}}}}}}
+	return []*Scenario{flt, race, held, refused}
 }
 
-const rule = "end-to-end scenarios on an in-process server: 1-4 source partitions (unique sid tag), 1-3 pipes over four source-condition shapes, waves of 1-3 batches of 1-13 events per source (chunk size 300-2000 bytes in half of the scenarios so that batches straddle roll-overs), pipe creation before/after existing history, a second pipe created mid-history, DELETE PIPE with a control pipe, clean restart, two first writers with inverted notifications (schedule hook), concurrent writers on known sources, worker idle time-out with a write shortly before it, DELETE PIPE + CREATE PIPE again under the same name (names with '_', '/', ':', '.', '-', upper case; events before, between and after; one case per epoch), the same with DELETE PIPE while a worker of the pipe is held between its journal write and saveState (schedule point in ppipe.saveState), requests refused half-way on a server with a small MaxRecordSize (the stored prefix counts as written; mostly the first write to a source since the pipe exists); one case per (pipe epoch, source); non-trivial iff the source matches the pipe and either a notification reached the pipe while it already knew the source (worker charged), or a restart/delete/re-creation/race/re-arm step was taken; distinct by scenario/pipe/source"
+const rule = "end-to-end scenarios on an in-process server: 1-4 source partitions (unique sid tag), 1-3 pipes over four source-condition shapes, waves of 1-3 batches of 1-13 events per source (chunk size 300-2000 bytes in half of the scenarios so that batches straddle roll-overs), pipe creation before/after existing history, a second pipe created mid-history, DELETE PIPE with a control pipe, clean restart, two first writers with inverted notifications (schedule hook), concurrent writers on known sources, worker idle time-out with a write shortly before it, DELETE PIPE + CREATE PIPE again under the same name (names with '_', '/', ':', '.', '-', upper case; events before, between and after; one case per epoch), the same with DELETE PIPE while a worker of the pipe is held between its journal write and saveState (schedule point in ppipe.saveState), TRUNCATE of a fully copied source under live pipes (chunks only while something holds the partition; the partition itself right after a restart, then the pipes cleaner -- a second one with a period of milliseconds -- drops the descriptor and later writes go to a new partition), a record whose copy with the provenance fields exceeds MaxRecordSize (the destination refuses it every time; with clean restarts while the worker sleeps between attempts), registry operations that must be refused (second CREATE PIPE of a live name, conditions that do not compile, DELETE PIPE of an unknown name) or answered (DESCRIBE PIPE, list of pipes), requests refused half-way on a server with a small MaxRecordSize (the stored prefix counts as written; mostly the first write to a source since the pipe exists); one case per (pipe epoch, source); non-trivial iff the source matches the pipe and either a notification reached the pipe while it already knew the source (worker charged), or a restart/delete/re-creation/race/re-arm step was taken; distinct by scenario/pipe/source"
 
 // closeFdPool: the journal controller of the range library has no shutdown, so the reader file descriptors pooled by
 // a stopped server stay open for the life of the process (about 25 per scenario; a thorough run starts thousands of
@@ -2304,6 +2732,12 @@ func main() {
 		for i := 0; i < c.N(4); i++ {
 			jobs = append(jobs, genHeld(c.Rng.Fork()))
 		}
+		for i := 0; i < c.N(10); i++ {
+			jobs = append(jobs, genTruncate(c.Rng.Fork()))
+		}
+		for i := 0; i < c.N(8); i++ {
+			jobs = append(jobs, genFat(c.Rng.Fork()))
+		}
 		results := make([][]Case, len(jobs))
 		errs := make([]error, len(jobs))
 		Parallel(len(jobs), 8, func(i int) {
@@ -2318,6 +2752,7 @@ func main() {
 			}
 			c.Tag("scenario:" + jobs[i].Stream)
 		}
+		c.Note("truncate-steps", fmt.Sprintf("partition deleted: %d, chunks only: %d", atomic.LoadInt32(&truncDeleted), atomic.LoadInt32(&truncKept)))
 		return c.Finish(rule)
 	})
 }
